@@ -284,23 +284,31 @@ P("C17", "proof", "tables regenerated from the source + Lean 4 theorems (decide 
             "TP.C17.comp_valid_iff", "TP.C17.path_valid_iff", "TP.C17.invalid_verdict_sound", "TP.C17.valid_agrees_checked", "TP.C17.invalid_verdict_complete"],
   rule="all 256 byte values x 3 positions x several prefixes + small domains + multi-byte characters with forbidden low bytes; non-trivial = invalid or >= 2 components", design_ref="§5 C17")
 
-P("C18", "other", "Lean 4 theorems (byte-level fault-capable transcription of the parser combinators and both parsers never faults, for every input and step sequence) + model/code correspondence (cmix) + catch_unwind / time-limit exploration for the rest",
+P("C18", "proof", "Lean 4 theorems: byte-level fault-capable transcriptions (checked indices, checked usize arithmetic, fuelled loops) of the parser combinators, both parsers, the hash loops and the push_checked counter never fault, for every input and step sequence; partial-operation site table regenerated from the source + model/code correspondence (cmix) + catch_unwind / time-limit exploration for stack, allocation and time",
   "Proved in Lean for every byte string and every sequence of next / next_back calls: the byte-level transcription of "
   "src/common/non_utf8/parser.rs and of the Unix and Windows component and prefix parsers (Model/Comb: one definition per "
   "Rust function, every slice index, `input[0]`, usize subtraction and unwrap checked, every while loop fuelled by the "
   "input length) never yields a panic or a divergence and returns exactly what the token-level parser returns "
-  "(unix_parser_total, windows_parser_total, *_comb_interleave). The transcription is tied to the crate by the cmix "
-  "correspondence on every run. Every other model function is a total Lean function; the implementation is exercised "
-  "under catch_unwind on bounded-exhaustive and very long inputs.",
-  "Partial: operations outside the parsers (push, push_checked, hash, set_extension, normalize, conversions) have no "
-  "fault-capable transcription yet: decided by exploration. Stack depth, allocation failure and time are explored, not proved. " + TV_NOTE,
+  "(unix_parser_total, windows_parser_total, *_comb_interleave). Outside the parsers: Encoding::hash of both encodings with "
+  "checked indexing never goes out of range and equals the model's loop (hash_index_in_range); `normal_cnt -= 1` never "
+  "underflows (checked_count_no_underflow); set_extension's `end_file_stem - start` is inside the buffer and on a "
+  "character boundary (set_ext_cut_in_range). gen/partial.py regenerates on every run the table of indexing / unwrap / "
+  "subtraction / truncate / loop / panic-macro / unsafe sites per source file, and partial_sites_covered proves it is "
+  "the table those theorems were written against (a new site breaks it). The transcription is tied to the crate by the "
+  "cmix correspondence on every run; every other model function is a total Lean function.",
+  "Partial: a theorem about a model cannot exhibit stack depth, allocation failure or running time: those are explored "
+  "(every public operation under catch_unwind with a time limit on bounded-exhaustive and very long inputs), not proved. "
+  "`unsafe` blocks (repr(transparent) casts, from_utf8_unchecked) are counted in the site table but modelled, not verified "
+  "(C14 proves the UTF-8 invariant they rely on; C19 exercises the casts). The `.expect` under cfg!(windows) is unreachable "
+  "on this host. gen/partial.py (regex counting after stripping comments, literals, attributes and test modules) is trusted. " + TV_NOTE,
   theorems=["TP.C18.unix_parser_total", "TP.C18.windows_parser_total", "TP.C18.unix_comb_interleave", "TP.C18.windows_comb_interleave",
-            "TP.C18.runC_sim"],
+            "TP.C18.runC_sim", "TP.C18.hash_index_in_range", "TP.C18.checked_count_no_underflow", "TP.C18.set_ext_cut_in_range",
+            "TP.C18.partial_sites_covered"],
   rule="14+ long-input shapes (16-64 KiB) x 6 arguments x ~45 operations, plus every short input; distinct by (shape, argument)",
-  explanation="Parser totality is a Lean theorem about a byte-level transcription with checked indices and fuelled loops, tied to the "
-              "code by correspondence; that the rest of the Rust code neither panics nor loops is explored under catch_unwind with "
-              "a per-transcript time limit on long inputs of every shape.",
-  design_ref="§5 C18")
+  explanation="Totality of the parsers, hash loops, checked-push counter and set_extension cut are Lean theorems about byte-level "
+              "transcriptions with checked indices and fuelled loops, tied to the code by correspondence and by the regenerated "
+              "site table; stack, allocation and time are explored under catch_unwind with a time limit on long inputs of every shape.",
+  design_ref="§5 C18", extra_tb=["gen/partial.py (partial-operation site table)"])
 
 P("C19", "translation_validation", "conversion chains vs std (implementation vs oracle)",
   "Every conversion the crate offers is driven on valid and invalid UTF-8 byte strings and compared with the input bytes, "
